@@ -28,6 +28,8 @@ type C16Case struct {
 	SendPct uint32     `json:"sendPct"`
 	StepPct uint32     `json:"stepPct"`
 	Seed    uint64     `json:"seed"`
+	Lanes   int        `json:"lanes,omitempty"` // goroutines of the concurrent phase (0: one per task); tasks are dealt round-robin
+	Focus   string     `json:"focus,omitempty"` // package family all the tasks come from, if any
 }
 
 var c16Counts = map[string]int{"quick": 400, "thorough": 10_000}
@@ -35,13 +37,31 @@ var c16Counts = map[string]int{"quick": 400, "thorough": 10_000}
 // task kinds and their weights; C01big are 30..70 variable instances with many conflicts
 var c16Kinds = []string{"C01big", "C01big", "C01big", "C01tt", "C02", "C03", "C04", "C04", "C05", "C06", "C06", "C07", "C07", "C08", "C09", "C10", "C11", "C12", "C13", "C14", "C14", "C15", "C17", "C18"}
 
+// c16Families: name, then the task kinds of a focused batch
+var c16Families = [][]string{
+	{"explain", "C07", "C07", "C08"},
+	{"maxsat", "C04"},
+	{"bf", "C11", "C12", "C17"},
+	{"pb-and-detection", "C14", "C15", "C02", "C03"},
+	{"counting", "C05", "C10", "C09"},
+}
+
 func c16Gen(r *gen.Rng, tier string, idx int) interface{} {
 	c := &C16Case{Procs: []int{2, 16, 16}[r.Intn(3)], Seed: r.U64()}
 	c.SendPct = []uint32{0, 128, 255}[r.Intn(3)]
 	c.StepPct = []uint32{0, 500, 5000}[r.Intn(3)]
 	k := []int{2, 4, 8, 16}[r.Intn(4)]
+	kinds := c16Kinds
+	if r.Chance(1, 4) {
+		// focused batch: every lane runs several tasks in a row, all from scenarios that go through the same
+		// package-level code (anything shared there is hit by all lanes during the whole batch)
+		f := c16Families[r.Intn(len(c16Families))]
+		c.Focus, kinds = f[0], f[1:]
+		c.Lanes = []int{4, 8}[r.Intn(2)]
+		k = c.Lanes * r.Range(3, 5)
+	}
 	for i := 0; i < k; i++ {
-		kind := c16Kinds[r.Intn(len(c16Kinds))]
+		kind := kinds[r.Intn(len(kinds))]
 		t := TaskSpec{Seed: r.U64()}
 		switch kind {
 		case "C01big":
@@ -114,10 +134,14 @@ func c16Run(ci interface{}, rec *Rec) {
 	atomic.StoreInt32(&c16.maxRunning, 0)
 	start := make(chan struct{})
 	recs := make([]*Rec, len(c.Tasks))
+	lanes := c.Lanes
+	if lanes <= 0 || lanes > len(c.Tasks) {
+		lanes = len(c.Tasks)
+	}
 	var wg sync.WaitGroup
-	for i := range c.Tasks {
+	for lane := 0; lane < lanes; lane++ {
 		wg.Add(1)
-		go func(i int) {
+		go func(lane int) {
 			defer wg.Done()
 			<-start
 			n := atomic.AddInt32(&c16.running, 1)
@@ -127,9 +151,11 @@ func c16Run(ci interface{}, rec *Rec) {
 					break
 				}
 			}
-			recs[i] = runTask(c.Tasks[i], rec.Tier)
+			for i := lane; i < len(c.Tasks); i += lanes {
+				recs[i] = runTask(c.Tasks[i], rec.Tier)
+			}
 			atomic.AddInt32(&c16.running, -1)
-		}(i)
+		}(lane)
 	}
 	close(start)
 	wg.Wait()
@@ -150,7 +176,11 @@ func c16Run(ci interface{}, rec *Rec) {
 	rec.Max("max_tasks_running_at_once", int(atomic.LoadInt32(&c16.maxRunning)))
 	rec.Count("schedule_perturbations", ScheduleHits())
 	rec.Count("batches", 1)
-	rec.Count(fmt.Sprintf("batches_k%d", len(c.Tasks)), 1)
+	if c.Focus != "" {
+		rec.Count("batches_focused_"+c.Focus, 1)
+	} else {
+		rec.Count(fmt.Sprintf("batches_k%d", len(c.Tasks)), 1)
+	}
 	if alt > 0 {
 		rec.Count("batches_with_interleaved_conflict_analysis", 1)
 		rec.Interesting(JS(c))
